@@ -23,7 +23,9 @@ RULE = ("Hypothesis-generated scenarios: JSON class (12) x write configuration {
         "capacity-forced flush, both strategies}, plus per class scenarios whose first file has a base "
         "name of NAME_MAX-{0,5,20,38,39,40} characters (around the point where the sibling temporary "
         "file of the atomic mode cannot be created; a save that then FAILS is crashed at every point "
-        "too and must leave the file wholly old). For each scenario the un-crashed run is measured in "
+        "too and must leave the file wholly old), or whose first file name is a SYMBOLIC LINK to the real "
+        "file; after every crash a new object also performs a (much shorter) save, which must leave "
+        "valid JSON. For each scenario the un-crashed run is measured in "
         "a forked child (N executed library lines, M file-system events open/rename/remove/truncate, "
         "write calls and sizes) and then EVERY crash point is executed in its own forked child that "
         "dies with os._exit (no cleanup, no flushing of Python buffers): before each of the N lines "
@@ -86,6 +88,9 @@ def shards(tier):
 
 
 def _paths(d, n, namelen=None):
+    if namelen == "symlink":
+        # file 0 is reached through a symbolic link (created by _write_initial)
+        return [os.path.join(d, "link0.json")] + [os.path.join(d, f"f{i}.json") for i in range(1, n)]
     if namelen:
         # file 0 gets a base name of exactly ``namelen`` characters (near NAME_MAX the sibling
         # temporary file of the atomic-replace mode cannot be created)
@@ -95,7 +100,14 @@ def _paths(d, n, namelen=None):
 
 
 def _write_initial(d, sc):
-    for p, init in zip(_paths(d, len(sc["init"]), sc.get("namelen")), sc["init"]):
+    for i, (p, init) in enumerate(zip(_paths(d, len(sc["init"]), sc.get("namelen")), sc["init"])):
+        if sc.get("namelen") == "symlink" and i == 0:
+            real = os.path.join(d, "real0.json")
+            if init != "$ABSENT":
+                with open(real, "wb") as f:
+                    f.write(json.dumps(dec(init)).encode())
+            os.symlink(real, p)
+            continue
         if init != "$ABSENT":
             with open(p, "wb") as f:
                 f.write(json.dumps(dec(init)).encode())
@@ -238,6 +250,19 @@ def run_scenario(sc, base, acc=None, tier="quick", cls=None, only_point=None):
                     exp = got[i]
                     if exp is not None and v != json.loads(exp):
                         bad = {"what": "fresh_object_differs", "file": i, "point": [kind, k, j]}
+                    elif i == 0 and bad is None:
+                        # ... and the next (much shorter) save by a new object works: whatever the
+                        # crashed process left lying around must not end up in the file
+                        o2 = cls(filename=p)
+                        try:
+                            o2.clear()
+                        except OSError:
+                            continue      # (a name too long for the temporary file: the save cannot work)
+                        with open(p, "rb") as fh:
+                            after = fh.read()
+                        if json.loads(after) != ({} if ci.kind == "dict" else []):
+                            bad = {"what": "save_after_crash_damaged_file", "file": i, "point": [kind, k, j],
+                                   "after": after[:80].decode("utf-8", "replace")}
                 except Exception as e:  # noqa: BLE001
                     bad = {"what": "fresh_object_cannot_open", "file": i, "point": [kind, k, j],
                            "error": f"{type(e).__name__}: {e}"[:160]}
@@ -286,8 +311,9 @@ def draw_scenario(draw, ci, longname=False):
     sc = {"class": ci.name, "wc": wc, "threading": th, "init": init, "kind": kind,
           "kind_of_root": ci.kind}
     if longname:
-        # base-name length around the point where '._<uuid4>_<name>' exceeds NAME_MAX
-        sc["namelen"] = NAME_MAX - draw(st.sampled_from([0, 5, 20, 38, 38, 39, 40]))
+        # base-name length around the point where '._<uuid4>_<name>' exceeds NAME_MAX - or a file
+        # name that is a symbolic link to the real file
+        sc["namelen"] = draw(st.sampled_from(["symlink", "symlink"] + [NAME_MAX - x for x in (0, 5, 20, 38, 38, 39, 40)]))
     mut = (lambda i: {"m": "setitem", "a": enc([f"k{i}", draw(dom.values(4))])}) if ci.kind == "dict" else \
         (lambda i: {"m": "append", "a": enc([draw(dom.values(4))])})
     if kind == "op":
